@@ -46,6 +46,8 @@ SPEC = dict(
     },
     # calls on these attributes are uninterpreted functions (section variables of the generated file)
     oracles={("STEPD", "_distribution", "sf"): "norm_sf"},
+    # collections.deque(maxlen=config.<attr>) kept in a storage field: (class, property) -> (storage, config attribute)
+    deques={("KSWIN", "window"): ("_additional_vars.window", "min_num_instances")},
     layouts={
         "CUSUM": _cusum_layout("CUSUMConfig"),
         "PageHinkley": _cusum_layout("PageHinkleyConfig"),
@@ -72,6 +74,7 @@ SPEC = dict(
         "STEPD": [("_config", obj("STEPDConfig")), ("_num_instances", INT), ("drift", BOOL),
                   ("_additional_vars.correct_total", INT), ("_additional_vars.window_accuracy", obj("AccuracyQueue")),
                   ("_warning", BOOL), ("_min_num_instances", INT)],
+        "KSWIN": [("_config", obj("KSWINConfig")), ("_num_instances", INT), ("drift", BOOL), ("_additional_vars.window", lst(NUM))],
         "ECDDWT": [("_config", obj("ECDDWTConfig")), ("_num_instances", INT), ("drift", BOOL), ("_additional_vars.p", obj("Mean")),
                    ("_additional_vars.z", obj("EWMA")), ("_additional_vars.warning", BOOL), ("_lambda_div_two_minus_lambda", NUM)],
     },
@@ -100,6 +103,7 @@ UNITS = [
     ("EDDM", "_update"), ("EDDM", "reset"),
     ("RDDM", "_update"), ("RDDM", "reset"),
     ("STEPD", "_update"), ("STEPD", "reset"),
+    ("KSWIN", "_update"), ("KSWIN", "reset"),
     ("HDDMA1", "_update"), ("HDDMA1", "reset"), ("HDDMA2", "_update"), ("HDDMA2", "reset"),
     ("HDDMW1", "_update"), ("HDDMW1", "reset"), ("HDDMW2", "_update"), ("HDDMW2", "reset"),
 ]
@@ -114,7 +118,7 @@ EQ = {
     "C02": _HIST,  # reset() = where a fresh history starts, over the generated code
     "C03": ["EqStats.v", "EqSPC.v", "EqRDDM.v"],
     "C04": ["EqStats.v", "EqHDDM.v", "EqHDDMW.v"],
-    "C06": ["EqStats.v", "EqSTEPD.v"],
+    "C06": ["EqStats.v", "EqSTEPD.v", "EqKSWIN.v"],
 }
 
 
